@@ -38,7 +38,7 @@ THEOREMS = [
 TRUSTED_BASE = common.TRUSTED_BASE_COMMON
 ASSUMPTIONS = ["exactly-once and the multiset equality with the definition's denotation are not proved (no order-free "
                "semantics in this development); known findings D1 (join re-fires) and D8 (rerun offers a command)"]
-FAM = progs.family(p_pub_dict=0.3, p_second_transition=0.6, p_jinja=0.4, n_tasks=(2, 8), p_loop=0.15, p_cmd=0.2, p_join=0.5, p_fail=0.15, w_ctrl=0.3, w_rerun=0.3)
+FAM = progs.family(p_pub_dict=0.35, p_dictval=0.6, p_second_transition=0.7, p_jinja=0.4, n_tasks=(2, 8), p_loop=0.15, p_cmd=0.2, p_join=0.5, p_fail=0.15, w_ctrl=0.3, w_rerun=0.3)
 
 
 def features(sess):
@@ -54,7 +54,7 @@ def nontrivial(r):
 
 def run(ctx):
     return common.conductor_run(
-        ctx, "C01", FAM, common.project_full, monitors.c01, features, nontrivial, 300, 6000,
+        ctx, "C01", FAM, common.project_full, monitors.c01, features, nontrivial, 700, 6000,
         rule="generated definitions (sequences, forks, decisions, joins, commands, counter-bounded loops) under random "
              "histories; non-trivial = at least 3 execution records were created")
 
